@@ -551,6 +551,11 @@ pub fn map_group_by(
         )?;
 
         let key = key_result.value;
+        // The key outlives the callback result's guard (it sits in `groups` while later
+        // callbacks and the array construction below allocate): root it with the result.
+        if let JsValue::Object(key_obj) = &key {
+            guard.guard(key_obj.clone());
+        }
 
         // Add to existing group or create new one
         groups.entry(JsMapKey(key)).or_default().push(item);
